@@ -1,10 +1,10 @@
-(* Object/Defects.v — models of the code as it was on the pinned tree where it violated C15, with the refuting witness.
-   Each witness was replayed on the real code (docs/C15.md); the defects are repaired by `fix:` commits in /repo and the
-   models in ObjSeg/Store/Fetch follow the repaired code. *)
-From Object Require Import ObjSeg.
+(* Object/Defects.v — models of the code as it was on the pinned tree where it violated C15, each with the refuting
+   witness (found by the checks and replayed on the real code, see docs/C15.md). The defects are repaired by `fix:`
+   commits in /repo; the models in ObjSeg/Store/Fetch follow the repaired code. *)
+From Object Require Import ObjSeg Store Fetch.
 Open Scope nat_scope.
 
-(* D1. Produce (before the fix) built every name with append(args.Name, ...). `spare` = cap(args.Name) - len(args.Name).
+(* D1. Produce built every name with append(args.Name, ...). `spare` = cap(args.Name) - len(args.Name).
    basename := append(args.Name, ver) shares args.Name's backing array when spare >= 1; the metadata name
    append(args.Name, kw, ver, seg0) is written in place when spare >= 3 and overwrites basename's last component
    with 32=metadata before basename is used for MetaData.Name and for the return value. *)
@@ -14,3 +14,106 @@ Definition produce_ret_prefix (nm : name) (ver : N) (spare : nat) : name :=
 Lemma produce_alias_refuted :
   exists nm ver spare, produce_ret_prefix nm ver spare <> nm ++ [ver_comp ver].
 Proof. exists [mkc 8%N [97%N]], 7%N, 3. vm_compute. discriminate. Qed.
+
+(* D2. BoltStore.Get(prefix): `maxVer` was never assigned, so every entry with version > 0 replaced the answer: the last
+   key of the scan won, and a version-0 entry was never returned. *)
+Fixpoint b_scan_old (iter : N) (key : bytes) (cur : bdb) (best : option bytes) : option bytes :=
+  match cur with
+  | [] => best
+  | (k, v) :: r =>
+      if has_prefix_bytes key k then
+        let iter' := (iter - 1)%N in
+        if (iter' <=? 0)%N then best
+        else if (length v <? 8) then b_scan_old iter' key r best
+        else b_scan_old iter' key r (if (0 <? be_val (firstn 8 v))%N then Some (skipn 8 v) else best)
+      else best
+  end.
+Definition b_get_prefix_old (cap : N) (db : bdb) (nm : name) : option bytes :=
+  b_scan_old cap (name_inner nm) (b_seek (name_inner nm) db) None.
+
+Definition d2_db : bdb :=
+  b_put (name_inner [mkc 8%N [97%N]; mkc 8%N [99%N]]) (b_value 3 [3%N])
+        (b_put (name_inner [mkc 8%N [97%N]; mkc 8%N [98%N]]) (b_value 5 [5%N]) []).
+Lemma bolt_prefix_refuted :
+  b_get_prefix_old boltIterCap d2_db [mkc 8%N [97%N]] = Some [3%N] /\      (* /a/c, version 3 *)
+  b_get boltIterCap d2_db [mkc 8%N [97%N]] true = Some [5%N].               (* the repaired code: /a/b, version 5 *)
+Proof. split; vm_compute; reflexivity. Qed.
+
+Lemma bolt_version0_refuted :
+  b_get_prefix_old boltIterCap (b_put (name_inner [mkc 8%N [97%N]; ver_comp 0%N]) (b_value 0 [7%N]) []) [mkc 8%N [97%N]] = None.
+Proof. vm_compute. reflexivity. Qed.
+
+(* the scan cap that is still there (known finding): with cap = 4 the fourth key is not looked at *)
+Lemma bolt_scan_cap_refuted :
+  let db := fold_right (fun v d => b_put (name_inner [mkc 8%N [97%N]; ver_comp v]) (b_value v [v]) d) [] [1;2;3;4]%N in
+  b_get 4 db [mkc 8%N [97%N]] true = Some [3%N].
+Proof. vm_compute. reflexivity. Qed.
+
+(* D3. memoryStoreNode.findNewest compared `cl.version > known.version` starting from the wireless node itself
+   (version 0): an entry of version 0 never won. *)
+Definition pick_newest_old (known : cand) (c : cand) : cand := if (fst known <? fst c)%N then c else known.
+Definition mt_get_prefix_old (t : mtree) (nm : name) : option bytes :=
+  match mt_node t nm with
+  | None => None
+  | Some i => match mw i with
+              | Some w => Some w
+              | None => let r := fold_left pick_newest_old (mt_cands t nm) (0%N, []) in
+                        match snd r with [] => None | w => Some w end
+              end
+  end.
+Lemma mem_version0_refuted :
+  let t := mt_insert [mkc 8%N [97%N]; ver_comp 0%N] 0 [7%N] mt_init in
+  mt_get_prefix_old t [mkc 8%N [97%N]] = None /\ mt_get id_order t [mkc 8%N [97%N]] true = Some [7%N].
+Proof. split; vm_compute; reflexivity. Qed.
+
+(* D4. rrSegFetcher.doCheck removed completed streams INSIDE the round-robin loop. If the removed stream was the one
+   remembered as `first`, the full-circle test could never fire again. The loop, as it was:
+     for { state = next(); if state == nil return; if first == nil {first = state} else if state == first return;
+           if state.complete { remove(state); continue }; if waiting_or_done(state) continue; break }           *)
+Inductive scan_result := Picked (sid : nat) | NoWork | OutOfFuel.
+Fixpoint scan_old (fuel : nat) (complete waiting : nat -> bool) (strs : list nat) (rr : nat) (first : option nat)
+  : scan_result :=
+  match fuel with
+  | O => OutOfFuel
+  | S f =>
+      match strs with
+      | [] => NoWork
+      | _ =>
+        let rr' := (rr + 1) mod length strs in
+        let st := nth rr' strs 0 in
+        match first with
+        | Some fs => if fs =? st then NoWork
+                     else if complete st then scan_old f complete waiting (remove_first st strs) rr' first
+                     else if waiting st then scan_old f complete waiting strs rr' first
+                     else Picked st
+        | None => if complete st then scan_old f complete waiting (remove_first st strs) rr' (Some st)
+                  else if waiting st then scan_old f complete waiting strs rr' (Some st)
+                  else Picked st
+        end
+      end
+  end.
+(* streams [0;1], rrIndex 0; stream 1 has failed (complete), stream 0 waits for its first segment: never returns *)
+Lemma docheck_loop_refuted : forall fuel,
+  scan_old fuel (fun s => s =? 1) (fun s => s =? 0) [0; 1] 0 None = OutOfFuel.
+Proof.
+  assert (H : forall fuel, scan_old fuel (fun s => s =? 1) (fun s => s =? 0) [0] 0 (Some 1) = OutOfFuel).
+  { induction fuel as [|f IH]; [reflexivity|]. cbn. exact IH. }
+  intros [|[|f]]; try reflexivity. cbn. apply H.
+Qed.
+
+(* D5. doCheck built each Interest name with append(state.fetchName, seg). With spare capacity in fetchName all
+   names queued in outpipe during one doCheck share the slot of the segment component: when they are finally
+   encoded (expressRImpl runs after doCheck returns) they all carry the LAST segment number. *)
+Definition queued_names_old (spare : nat) (fetch : name) (segs : list N) : list name :=
+  match spare with
+  | O => map (fun s => fetch ++ [seg_comp s]) segs
+  | _ => map (fun _ => fetch ++ [seg_comp (last segs 0%N)]) segs
+  end.
+Lemma consumer_alias_refuted :
+  queued_names_old 1 [mkc 8%N [97%N]] [1;2;3]%N <> map (fun s => [mkc 8%N [97%N]] ++ [seg_comp s]) [1;2;3]%N.
+Proof. vm_compute. discriminate. Qed.
+
+(* D6. MemoryStore keyed its children by Component.String(), which prints numeric components in decimal whatever their
+   length (names finding comp_to_str_injective_refuted): 54=%00%05 and v=5 got the same key. *)
+Lemma string_key_refuted : comp_to_str (mkc 54%N [0;5]%N) = comp_to_str (mkc 54%N [5]%N) /\ mkc 54%N [0;5]%N <> mkc 54%N [5]%N.
+Proof. split; [vm_compute; reflexivity|discriminate]. Qed.
